@@ -236,7 +236,9 @@ def run_case(case, ctx):
     x = x[np.isfinite(x)]
     if case.get("ties"):
         # measurements rounded to a resolution: many repeated observations (every one of them counts in the likelihood)
-        res = 10.0 ** math.floor(math.log10(max(float(np.median(np.abs(x))), 1e-6)) - 0.5)
+        # (a resolution of about a third of the spread or finer - rounding a narrow sample to the magnitude of its median
+        #  collapsed it onto one value: a degenerate data set, not a test of the fit)
+        res = 10.0 ** math.floor(math.log10(max(float(np.std(x)), 1e-9)) - 0.5)
         x = np.round(x / res) * res
         if R.SUPPORT[fam] == "pos":
             x = np.maximum(x, res)
@@ -264,7 +266,7 @@ def run_case(case, ctx):
         # two shape parameters and a scale: the likelihood has a ridge along which the optimiser stops at slightly different
         # places for x and c*x (0.17 seen on rounded data, n = 300); a wrong start, a dropped observation or a
         # shared keyword dict costs several units
-        tau = 0.5
+        tau = 0.5 + 2e-3 * n  # (the ridge gap grows with n: 0.17 at n = 300, 0.57 at n = 1000)
     info = {"family": fam, "generating": gen, "n": n, "start_kind": case["start"]}
 
     if case.get("prelude"):
